@@ -216,6 +216,7 @@ fn sequence_level(ctx: &Ctx, report: &mut refcodec::evidence::Report, schema: &r
     use refcodec::tables::{reply_enum, STREAMS};
     let pools = Pools::build(schema, ctx.seed, 4);
     let depth = ctx.by(1usize, 2usize);
+    long_replies(ctx, report, schema);
     let threads = ctx.threads;
     let seed = ctx.seed;
     // work items: (stream, prefix)
@@ -281,6 +282,118 @@ fn sequence_level(ctx: &Ctx, report: &mut refcodec::evidence::Report, schema: &r
                     r.violation(&format!("{} stream: a packet outside the reply set does not end the stream with exactly one error", sd.name), &format!("after {prefix:?} the packet {:02x}{:02x}00: {oks} items, {errs} errors, ended={ended}", c, i), case());
                 } else if r.wants_sample() && cf % 4099 < threads as u32 {
                     r.sample(json!({"stream": sd.name, "valid_replies_before": prefix, "then_packet": hex(&[c, i, 0]), "observed": format!("{oks} items, 1 error, end; nothing written after it")}));
+                }
+            }
+        }
+    });
+}
+
+
+/// Replies inside the reply set whose body needs the extended length form (255 bytes and more), delivered under every
+/// cut of the 5-byte header and byte-wise: the item handed out is the variant of that control field with exactly the
+/// content the variant's own decoder gives for the same bytes, and it is acknowledged once.
+fn long_replies(ctx: &Ctx, report: &mut refcodec::evidence::Report, schema: &refcodec::layout::Schema) {
+    use crate::script::{Chunking, Entry, Ev, Script, Term};
+    use crate::seq::{command_for, item_debug, run_stream, Pools, ACK};
+    use refcodec::tables::{reply_enum, STREAMS};
+    let pools = Pools::build(schema, ctx.seed ^ 0x10, 2);
+    let codec = Codec::new(schema);
+    let gen = Gen::new(schema, GenCfg { big: true, stray_pct: 0 });
+    let threads = ctx.threads;
+    let seed = ctx.seed;
+    let per_variant = ctx.by(3usize, 40usize);
+    let streams: Vec<&'static refcodec::tables::StreamDef> = STREAMS.iter().filter(|s| s.name != "feig::WriteFile").collect();
+    // long canonical encodings per reply type, drawn once
+    let mut long_by_key: std::collections::BTreeMap<&'static str, Vec<Vec<u8>>> = Default::default();
+    {
+        let mut rng = Rng::derive(seed, 0xC15_10A);
+        for sd in &streams {
+            for (_, key) in reply_enum(sd.replies).variants {
+                if long_by_key.contains_key(key) {
+                    continue;
+                }
+                let def = schema.get(key);
+                let mut v = vec![];
+                for _ in 0..150 {
+                    if v.len() >= per_variant {
+                        break;
+                    }
+                    let val = gen.gen_struct(&mut rng, def, Presence::Random, 0);
+                    let Ok(b) = codec.canonical(def, &val) else { continue };
+                    if b.len() >= 5 + 255 && b[2] == 0xff && b.len() <= 5000 {
+                        v.push(b);
+                    }
+                }
+                long_by_key.insert(key, v);
+            }
+        }
+    }
+    sharded(report, threads, |shard, r| {
+        let mut rng = Rng::derive(seed, 0xC15_10B + shard as u64);
+        for (si, sd) in streams.iter().enumerate() {
+            if si % threads != shard % threads && threads <= streams.len() {
+                continue;
+            }
+            if threads > streams.len() && si != shard {
+                continue;
+            }
+            let e = reply_enum(sd.replies);
+            for (variant, key) in e.variants {
+                let mut found = 0usize;
+                for b in long_by_key.get(key).cloned().unwrap_or_default() {
+                    found += 1;
+                    let expected = item_debug(variant, key, &b, "?");
+                    if expected.ends_with("(?)") {
+                        continue; // the variant's own decoder rejects it: not this check's business
+                    }
+                    let cmd = command_for(schema, &pools, &mut rng, sd);
+                    let mut chunkings = vec![Chunking::Whole, Chunking::Bytewise];
+                    for cut in 1..=6usize {
+                        chunkings.push(Chunking::Cuts(vec![cut]));
+                    }
+                    chunkings.push(Chunking::Cuts(vec![3, 4]));
+                    chunkings.push(Chunking::Cuts(vec![4, 5]));
+                    for chunking in chunkings {
+                        // the cut positions are relative to the reply: shift them behind the acknowledgement
+                        let chunking = match chunking {
+                            Chunking::Cuts(c) => Chunking::Cuts(c.into_iter().map(|x| x + 3).collect()),
+                            o => o,
+                        };
+                        let mut script = Script::new(vec![Entry { bytes: ACK.to_vec(), gate: cmd.len() }, Entry { bytes: b.clone(), gate: cmd.len() }]);
+                        script.chunking = chunking.clone();
+                        script.pend_between = true;
+                        let term = Term::new(script);
+                        r.case(fnv(&b) ^ fnv(format!("{chunking:?}{}", sd.name).as_bytes()), true);
+                        r.count("sequence_level_long_replies", 1);
+                        let res = run_stream(sd.name, &cmd, &term, None);
+                        let st = term.0.lock().unwrap();
+                        let first = st.log.iter().find_map(|e| if let Ev::Yield { ok, debug } = e { Some((*ok, debug.clone())) } else { None });
+                        let case = || json!({"kind": "sequence-level-long-reply", "stream": sd.name, "variant": variant, "reply_len": b.len(), "reply_head": hex(&b[..12]), "chunking": format!("{chunking:?}"), "first_item": first.as_ref().map(|f| f.1.chars().take(200).collect::<String>()), "expected_item": expected.chars().take(200).collect::<String>()});
+                        match res {
+                            Err(p) if p.starts_with("PANIC") => {
+                                r.violation(&format!("{} stream {}", sd.name, panic_signature(&p)), &p, case());
+                                continue;
+                            }
+                            Err(p) => {
+                                r.inconclusive(&format!("C15 long replies: {p}"));
+                                return;
+                            }
+                            Ok(false) => {
+                                r.inconclusive("harness poll guard fired in C15");
+                                return;
+                            }
+                            Ok(true) => {}
+                        }
+                        match &first {
+                            Some((true, d)) if *d == expected => {}
+                            Some((true, _)) => r.violation(&format!("{} stream: a long {variant} reply is handed out with other content than its own decoder gives", sd.name), &format!("reply of {} bytes delivered as {chunking:?}", b.len()), case()),
+                            Some((false, d)) => r.violation(&format!("{} stream: a long {variant} reply inside the reply set is rejected", sd.name), &format!("reply of {} bytes delivered as {chunking:?}: {d}", b.len()), case()),
+                            None => r.violation(&format!("{} stream: a long {variant} reply is not handed out", sd.name), &format!("reply of {} bytes delivered as {chunking:?}", b.len()), case()),
+                        }
+                    }
+                }
+                if found > 0 {
+                    r.note("variants_with_long_replies", &format!("{}::{variant}", sd.replies));
                 }
             }
         }
